@@ -277,6 +277,9 @@ func (para *QueryParam) deepCopy() *QueryParam {
 func (h *Handler) serveQueryLog(w http.ResponseWriter, r *http.Request, user meta2.User) {
 	repository := mux.Vars(r)[Repository]
 	logStream := mux.Vars(r)[LogStream]
+	if !h.requireRepositoryDataRead(w, user, repository, "query logs") {
+		return
+	}
 	if err := h.ValidateAndCheckLogStreamExists(repository, logStream); err != nil {
 		h.Logger.Error("query log scan request error! ", zap.Error(err), zap.Any("r", r))
 		h.httpErrorRsp(w, ErrorResponse(err.Error(), LogReqErr), http.StatusBadRequest)
@@ -895,6 +898,9 @@ func (h *Handler) serveAnalytics(w http.ResponseWriter, r *http.Request, user me
 		}
 	}()
 
+	if !h.requireRepositoryDataRead(w, user, repository, "query log analytics") {
+		return
+	}
 	if err := h.ValidateAndCheckLogStreamExists(repository, logStream); err != nil {
 		h.Logger.Error("query log agg request error! ", zap.Error(err))
 		h.httpErrorRsp(w, ErrorResponse(err.Error(), LogReqErr), http.StatusBadRequest)
@@ -1145,6 +1151,9 @@ func (h *Handler) serveAggLogQuery(w http.ResponseWriter, r *http.Request, user 
 	// Step 1: Verify the validity of repository and logStream and verify the validity of the request.
 	repository := mux.Vars(r)[Repository]
 	logStream := mux.Vars(r)[LogStream]
+	if !h.requireRepositoryDataRead(w, user, repository, "query log histogram") {
+		return
+	}
 	if err := h.ValidateAndCheckLogStreamExists(repository, logStream); err != nil {
 		h.Logger.Error("query log agg request error! ", zap.Error(err))
 		h.httpErrorRsp(w, ErrorResponse(err.Error(), LogReqErr), http.StatusBadRequest)
